@@ -85,6 +85,18 @@ pub fn super_version_memtables(sv: &SuperVersion) -> Vec<Arc<crate::Memtable>> {
     v
 }
 
+/// Whether a table has been marked for deletion (its file is removed when the last handle drops).
+#[must_use]
+pub fn table_marked_deleted(t: &crate::Table) -> bool {
+    t.is_deleted.load(std::sync::atomic::Ordering::Acquire)
+}
+
+/// Whether a blob file has been marked for deletion (removed when the last handle drops).
+#[must_use]
+pub fn blob_file_marked_deleted(bf: &BlobFile) -> bool {
+    bf.0.is_deleted.load(std::sync::atomic::Ordering::Acquire)
+}
+
 /// (item count, on-disk value bytes, uncompressed value bytes) of a blob file.
 #[must_use]
 pub fn blob_file_meta(bf: &BlobFile) -> (u64, u64, u64) {
